@@ -455,6 +455,11 @@ unsafe fn dispose_general_node<T: RcObject>(
             // Decrement next node's strong count and update its epoch.
             let next_cnt = loop {
                 let cnt_curr = State::from_raw(next_ref.state.load(Ordering::SeqCst));
+                // The stamps must be interpreted in the current window, not in the one of this
+                // frame's entry: the recursion into the previous children re-pins periodically,
+                // so the global epoch may have advanced by any amount meanwhile, and a stamp
+                // newer than the entry's `curr_epoch + 1` would wrap around and look ancient.
+                let modu: Modular<EPOCH_WIDTH> = Modular::new(global_epoch() as isize + 1);
                 let next_epoch =
                     modu.max(&[node_epoch as _, link_epoch as _, cnt_curr.epoch() as _]);
                 let cnt_next = cnt_curr.sub_strong(1).with_epoch(next_epoch as _);
